@@ -148,7 +148,12 @@ pub fn case(tape: &[u32]) -> CaseOutcome {
     let dsl = &program.printed.text;
     let locs = &program.printed.locs;
     // trees with many matches
-    let source = if t.chance(1, 2) { pysrc::RICH[t.choose(pysrc::RICH.len())].to_string() } else { pysrc::gen_source(&mut t) };
+    let mut source = if t.chance(1, 2) { pysrc::RICH[t.choose(pysrc::RICH.len())].to_string() } else { pysrc::gen_source(&mut t) };
+    // a sixth of the trees have syntax errors: zero-width MISSING nodes and empty recovery nodes
+    // can be what a stanza matches
+    if t.chance(1, 6) {
+        source = if t.chance(1, 3) { "def f(x):\n  return x.\n".to_string() } else { pysrc::inject_faults(&mut t, &source, 1) };
+    }
     let fault_id = match program.gen.fault_id {
         Some(i) => i,
         None => return CaseOutcome::Discard("no fault statement was placed"),
@@ -254,6 +259,16 @@ pub fn case(tape: &[u32]) -> CaseOutcome {
                 }
                 if cited.id != stanza.id || !(enclosing.contains(&sl) || family_locs.contains(&sl)) {
                     fault_identified = false;
+                }
+                // the failing value travels through further locals: the statement that fails is
+                // the one that computes it (or one enclosing it), not one that passes it on
+                if program.gen.fault == Some("type-through-aliases") && cited.id == stanza.id && family_locs.contains(&sl) {
+                    if let Some((exact, _)) = program.gen.fault_pair {
+                        let exact_loc = locs.get(&exact).map(|l| (l.row, l.col));
+                        if Some(sl) != exact_loc && !enclosing.contains(&sl) {
+                            return CaseOutcome::Fail(Failure::new("C20:lazy:cites-a-statement-that-passes-the-value-on", format!("the lazy error cites the statement at ({}, {}) `{}`, which only passes the failing value on; it is computed by the statement at {:?}", sl.0 + 1, sl.1 + 1, c.statement, exact_loc.map(|(r, c)| (r + 1, c + 1))), d(describe)));
+                        }
+                    }
                 }
                 continue;
             }
